@@ -27,7 +27,17 @@ type CutReader struct {
 	eofAt   int64 // -1: never
 	withEOF bool
 	one     bool // one byte at a time
+	zero    bool // every other Read returns (0, nil): "nothing happened" (io.Reader)
+	flip    bool
 	Reads   int64
+}
+
+// SetZeroReads makes every other Read return (0, nil) before the next one
+// delivers bytes. io.Reader allows that; it says nothing about the stream.
+func (c *CutReader) SetZeroReads(z bool) {
+	c.mu.Lock()
+	c.zero, c.flip = z, false
+	c.mu.Unlock()
 }
 
 func NewCutReader(src io.ReadCloser) *CutReader { return &CutReader{Src: src, eofAt: -1} }
@@ -63,6 +73,13 @@ func (c *CutReader) SetEOF(at int64, with bool) {
 
 func (c *CutReader) Read(p []byte) (int, error) {
 	c.mu.Lock()
+	if c.zero && len(p) > 0 {
+		c.flip = !c.flip
+		if c.flip {
+			c.mu.Unlock()
+			return 0, nil
+		}
+	}
 	pos := c.pos
 	limit := int64(len(p))
 	if c.one && limit > 1 {
